@@ -144,11 +144,8 @@ func zzRI(s *zzState, id string) {
 	}
 	zz.Assert(len(s.sh.cache) == len(free)+np, id+"/cache-size")
 	zz.Assert(s.fl.PendingCount() == np, id+"/pendingcount")
-	// allocs keys disjoint from free and pending
-	for k := range s.sh.allocs {
-		_, ok := s.sh.cache[k]
-		zz.Assert(!ok, id+"/allocs-disjoint")
-	}
+	// (allocs may legitimately hold stale entries for overflow ids after a rolled-back Free, so
+	// "allocs ∩ cache = ∅" is not an invariant of the real code and is not asserted.)
 	if h, ok := s.fl.(*hashMap); ok {
 		zzRIHash(h, free, id)
 	}
